@@ -29,7 +29,7 @@
 #include "bfs.h"
 #include "refosc.h"
 
-namespace { struct Synth { int p; int q; float r; }; }
+namespace { struct Synth { int p; int q; float r; float w; }; }
 #define rObject Synth
 // two variants of the application: /q with a range that crosses zero, and with a wholly negative range (where any
 // rounding away from the true value at the upper end leaves the range)
@@ -37,29 +37,33 @@ static const rtosc::Ports g_ports_a = {
     rParamI(p, rLinear(0, 127), "int 0..127"),
     rParamI(q, rLinear(-10, 10), "int -10..10"),
     rParamF(r, rLinear(-1, 1), "float -1..1"),
+    rParamF(w, rLinear(0, 1000), "float 0..1000"),
 };
 static const rtosc::Ports g_ports_b = {
     rParamI(p, rLinear(0, 127), "int 0..127"),
     rParamI(q, rLinear(-100, -10), "int -100..-10"),
     rParamF(r, rLinear(-1, 1), "float -1..1"),
+    rParamF(w, rLinear(0, 1000), "float 0..1000"),
 };
 #undef rObject
 static const rtosc::Ports *g_portsp = &g_ports_b;
 #define g_ports (*g_portsp)
 
 struct PInfo { const char *path; char type; double mn, mx; const char *cls; };
-static PInfo PORT[3] = {{"/p", 'i', 0, 127, "int-0-127"}, {"/q", 'i', -100, -10, "int-negative"}, {"/r", 'f', -1, 1, "float"}};
+static PInfo PORT[4] = {{"/p", 'i', 0, 127, "int-0-127"}, {"/q", 'i', -100, -10, "int-negative"}, {"/r", 'f', -1, 1, "float"}, {"/w", 'f', 0, 1000, "float-wide"}};
 static void select_variant(char v)
 {
     if(v == 'a') { g_portsp = &g_ports_a; PORT[1] = PInfo{"/q", 'i', -10, 10, "int-signed"}; }
     else { g_portsp = &g_ports_b; PORT[1] = PInfo{"/q", 'i', -100, -10, "int-negative"}; }
 }
-static const int IDS[3] = {1, 2, 3};
+enum { NID = 6 };
+static const int IDS[NID] = {1, 2, 3, 4, 5, 6};
+static int g_nids = 3;    // controller ids in the alphabet (tier dependent)
 static const int VEXP[2] = {0, 127};
 static const int VSWEEP[5] = {0, 1, 64, 126, 127};
 static int g_naddr = 3;   // addresses in the alphabet (tier dependent)
-enum { NA = 3, CAP = 2 };
-enum { OP_MAP = 0, OP_UNMAP = 6, OP_CLEAR = 12, OP_CC = 13, OP_DN2R = 19, OP_DR2N = 20, OP_SWEEP = 21, OP_END = 24 };
+enum { NA = 4, CAP = 2 };
+enum { OP_MAP = 0, OP_UNMAP = 2 * NA, OP_CLEAR = 4 * NA, OP_CC = 4 * NA + 1, OP_DN2R = OP_CC + 2 * NID, OP_DR2N = OP_DN2R + 1, OP_SWEEP = OP_DR2N + 1, OP_END = OP_SWEEP + NID };
 enum { K_WATCH = 0, K_BIND = 1, K_OTHER = 2, K_UNWATCH = 3 };
 
 struct Emit { bool ok; std::string addr, types; uint32_t u32; };
@@ -98,9 +102,9 @@ struct Sys {
         Snap view;                                 // RT side
         int known[NA][2];                          // last 7-bit value sent by the controller of that half, -1 unknown
         bool diverged = false, pruned = false;
-        int rep[3] = {0, 0, 0};                    // fate of the last free-report per controller: 0 none, 1 in flight, 2 answered, 3 ignored
-        bool snap_since[3] = {false, false, false};// a snapshot reached the realtime half since the controller's last free-report
-        int dup[3] = {0, 0, 0};                    // a controller was reported free while its previous report / assignment was still under way:
+        int rep[NID] = {0};                        // fate of the last free-report per controller: 0 none, 1 in flight, 2 answered, 3 ignored
+        bool snap_since[NID] = {false};// a snapshot reached the realtime half since the controller's last free-report
+        int dup[NID] = {0};                        // a controller was reported free while its previous report / assignment was still under way:
                                                    // 1 with no snapshot delivered in between, 2 after a snapshot (part of the canon)
                                                    // (only names the shape class of a finding; not part of the canon)
         Inst()
@@ -169,10 +173,10 @@ struct Sys {
         }
         for(int a = 0; a < g_naddr; ++a) for(int k = 0; k < 2; ++k) if((I.assign.a[a][k] != -1 ? 1 : 0) <= room) out.push_back(OP_UNMAP + a * 2 + k);
         if(room >= 1) out.push_back(OP_CLEAR);
-        if((int)I.r2n.size() < CAP) for(int k = 0; k < 6; ++k) out.push_back(OP_CC + k);
+        if((int)I.r2n.size() < CAP) for(int k = 0; k < 2 * g_nids; ++k) out.push_back(OP_CC + k);
         if(!I.n2r.empty()) out.push_back(OP_DN2R);
         if(!I.r2n.empty() && (I.fifo.empty() ? 0 : 1) <= room) out.push_back(OP_DR2N);
-        if((int)I.r2n.size() < CAP) for(int k = 0; k < 3; ++k) out.push_back(OP_SWEEP + k);
+        if((int)I.r2n.size() < CAP) for(int k = 0; k < g_nids; ++k) out.push_back(OP_SWEEP + k);
     }
 
     static void bad(Inst &I, bool check, const std::string &sig, const std::string &detail)
@@ -286,7 +290,7 @@ struct Sys {
         const int announced = std::max(0, (int)I.fifo.size() - I.watches_in_flight());
         const bool required = !forbidden && !bind_in_flight && announced - (int)r0 > 0;
         if(!emitted && required) {
-            int r = 0; for(int x = 0; x < 3; ++x) if(IDS[x] == id) r = I.rep[x];
+            int r = 0; for(int x = 0; x < NID; ++x) if(IDS[x] == id) r = I.rep[x];
             bad(I, check, std::string("free-report-missing|") + site + "|" + (r == 3 ? "previous-report-was-ignored" : r == 2 ? "previous-report-was-answered" : r == 1 ? "previous-report-lost" : "never-reported"),
                 "controller " + std::to_string(id) + " is assigned nowhere, " + std::to_string(announced) + " queued address(es) announced to the realtime side, " + std::to_string(r0) + " report(s) in flight, but it was not reported free; pending=" +
                 std::to_string(I.rt.pending.size) + " watchSize=" + std::to_string(I.rt.watchSize));
@@ -295,7 +299,7 @@ struct Sys {
         // A report while the previous report of the same controller (or its assignment) is still in flight is not
         // flagged here: the statement speaks about assignments, and the consequence is checked where the report is
         // delivered (a controller must not end up assigned to a second address).
-        if(emitted) for(int x = 0; x < 3; ++x) if(IDS[x] == id) {
+        if(emitted) for(int x = 0; x < NID; ++x) if(IDS[x] == id) {
             if(forbidden || bind_in_flight) I.dup[x] = I.snap_since[x] ? 2 : 1;
             I.rep[x] = 1; I.snap_since[x] = false;
         }
@@ -361,7 +365,7 @@ struct Sys {
             rtosc::MidiMapperRT::ports.dispatch(m.bytes.data() + strlen("/midi-learn/"), d);
             if(d.matches != 1) { bad(I, check, "protocol|deliver-n2r|message-not-understood", "MidiMapperRT::ports matched '" + vp::show(m.bytes.substr(0, 32)) + "' " + std::to_string(d.matches) + " times"); return; }
             if(m.kind == K_BIND) {
-                for(int x = 0; x < 3; ++x) I.snap_since[x] = true;
+                for(int x = 0; x < NID; ++x) I.snap_since[x] = true;
                 for(int a = 0; a < NA; ++a) for(int k = 0; k < 2; ++k) if(m.snap.a[a][k] != I.view.a[a][k] || m.snap.a[a][k] == -1) I.known[a][k] = -1;
                 I.view = m.snap;
             }
@@ -374,7 +378,7 @@ struct Sys {
             if(id == -1000) { bad(I, check, "protocol|deliver-r2n|unknown-message", "'" + vp::show(m.bytes.substr(0, 32)) + "'"); return; }
             I.nrt.useFreeID(id);
             bool changed = false; const char *shape = "queue-empty";
-            for(int x = 0; x < 3; ++x) if(IDS[x] == id) I.rep[x] = I.fifo.empty() ? 3 : 2;
+            for(int x = 0; x < NID; ++x) if(IDS[x] == id) I.rep[x] = I.fifo.empty() ? 3 : 2;
             if(!I.fifo.empty()) {
                 if(I.snap_has(I.assign, id)) {
                     // the reported controller has been assigned in the meantime: it is not "a not yet assigned controller"
@@ -382,7 +386,7 @@ struct Sys {
                     // produces exactly one message, so one of the two addresses would never be driven).
                     int n = 0; std::string where;
                     for(int a = 0; a < NA; ++a) { if(I.nrt.getCoarse(PORT[a].path) == id) { ++n; where += std::string(PORT[a].path) + ":coarse "; } if(I.nrt.getFine(PORT[a].path) == id) { ++n; where += std::string(PORT[a].path) + ":fine "; } }
-                    int du = 0; for(int x = 0; x < 3; ++x) if(IDS[x] == id) du = I.dup[x];
+                    int du = 0; for(int x = 0; x < NID; ++x) if(IDS[x] == id) du = I.dup[x];
                     if(n > 1) { bad(I, check, std::string("double-assignment|useFreeID|controller-already-assigned,") + (du == 1 ? "reported-twice-with-no-snapshot-in-between" : "reported-again-after-a-snapshot"), "controller " + std::to_string(id) + " was already assigned (" + show_snap(I.assign) + ") when a second free-report for it was delivered; it is now assigned to " + where); return; }
                     I.pruned = true; if(check) vp::outcome("dontcare:free-report-of-an-assigned-controller-delivered:pruned"); return;
                 }
@@ -482,7 +486,7 @@ struct Sys {
         s += "assign:"; for(int a = 0; a < NA; ++a) { put(s, I.assign.a[a][0]); put(s, I.assign.a[a][1]); }
         s += "view:"; for(int a = 0; a < NA; ++a) { put(s, I.view.a[a][0]); put(s, I.view.a[a][1]); }
         s += "known:"; for(int a = 0; a < NA; ++a) { put(s, I.known[a][0]); put(s, I.known[a][1]); }
-        s += "dup:"; for(int x = 0; x < 3; ++x) { put(s, I.dup[x]); put(s, I.snap_since[x]); }
+        s += "dup:"; for(int x = 0; x < NID; ++x) { put(s, I.dup[x]); put(s, I.snap_since[x]); }
         return s;
     }
 };
@@ -540,20 +544,20 @@ int main(int argc, char **argv)
 {
     vp::init(argc, argv, "C20");
     const bool T = vp::thorough();
-    std::string variants = T ? "ba" : "b";
+    std::string variants = T ? "bac" : "b";      // c: four addresses and four controller ids (ports of b), smaller depth
     if(!vp::replaying() || vp::ctx().replay.compare(0, 6, "ident|") == 0) { select_variant('b'); controller_identity(); }
     if(vp::replaying() && vp::ctx().replay.compare(0, 6, "ident|") == 0) return vp::finish();
     for(char variant : variants) {
-    select_variant(variant);
+    select_variant(variant == 'c' ? 'b' : variant);
     bfs::Engine<Sys> E;
-    E.max_depth = T ? 12 : 8;
-    g_naddr = 3;
+    E.max_depth = variant == 'c' ? 8 : T ? 12 : 8;
+    g_naddr = variant == 'c' ? 4 : 3; g_nids = variant == 'c' ? 4 : 3;
     if(const char *d = getenv("C20_DEPTH")) { E.max_depth = atoi(d); vp::cap("development override C20_DEPTH"); }
     if(const char *d = getenv("C20_NADDR")) { g_naddr = atoi(d); vp::cap("development override C20_NADDR"); }
     vp::bound("ports", T ? "/p i [0,127]; /q i [-100,-10] (run 1) and [-10,10] (run 2); /r f [-1,1]" : "/p i [0,127]; /q i [-100,-10]; /r f [-1,1]");
     vp::bound("alphabet", "map(addr,coarse|fine); unMap(addr,coarse|fine); clear(); CC(id in {1,2,3}, v in {0,127}); deliver head of N2R; deliver head of R2N; "
                           "probe in every state: CC(id, v) for v = 0,1,64,126,127 in sequence for every id");
-    vp::bound("addresses", (long long)g_naddr);
+    vp::bound(std::string("addresses_and_ids_run_") + variant, std::to_string(g_naddr) + " addresses, " + std::to_string(g_nids) + " controller ids, depth " + std::to_string(E.max_depth));
     vp::bound("channel_cap", "at most 2 messages in flight per channel; events that would exceed it are not enabled");
     // Start also from prepared operating points (replayed with the oracle on): with one binding per 5 events the
     // initial state alone never reaches several bindings within the depth bound.
